@@ -56,3 +56,15 @@ func init() {
 		regionSpec{fn: "consensus.validateV2Siafunds", name: "balance", from: "var inputSum, outputSum uint64"},
 	)
 }
+
+func init() {
+	// C02 / C03 / C04 / C08 — what validation establishes about ONE v2 siacoin / siafund input (the second halves of the loop
+	// bodies of validateV2Siacoins and validateV2Siafunds: accumulator membership / ephemeral check, spend policy)
+	extFuncs[coreMod+"/consensus.validateEphemeralSiacoinElement"] = "validateEphemeralSiacoinElement"
+	extFuncs[coreMod+"/consensus.validateEphemeralSiafundElement"] = "validateEphemeralSiafundElement"
+	tcodeRoots = append(tcodeRoots, "consensus.validateV2SpendPolicy")
+	regionRoots = append(regionRoots,
+		regionSpec{fn: "consensus.validateV2Siacoins", name: "inputMember", from: "if sci.Parent.StateElement.LeafIndex == types.UnassignedLeafIndex", to: "if err := validateV2SpendPolicy"},
+		regionSpec{fn: "consensus.validateV2Siafunds", name: "inputMember", from: "if sfi.Parent.StateElement.LeafIndex == types.UnassignedLeafIndex", to: "if err := validateV2SpendPolicy"},
+	)
+}
